@@ -243,6 +243,12 @@ pub trait Scenario: Sync {
     fn n_tasks(&self) -> usize;
     /// Hash of the shared state (for history keys / pruning).
     fn state_hash(&self, ctx: &Self::Ctx) -> u64;
+    /// Hash of everything the answer to the request `label` of task `task` can depend on
+    /// (default: the whole shared state). A task is a deterministic function of the requests it
+    /// made and the answers it got, so the chain of these hashes identifies its internal state.
+    fn response_hash(&self, ctx: &Self::Ctx, _task: usize, _label: &str) -> u64 {
+        self.state_hash(ctx)
+    }
     /// Choices available when `parked` tasks wait (default: run any parked task, in canonical
     /// order: the last-run task first if parked, then ascending ids).
     fn choices(&self, _ctx: &Self::Ctx, parked: &[(usize, String)], last: Option<usize>) -> Vec<Choice> {
@@ -336,12 +342,14 @@ struct Exec<S: Scenario> {
     last: Option<usize>,
     /// running hash of everything observable (parked labels) up to and including each point
     point_hash: Vec<u64>,
+    /// the execution was cut at this point because its state had been reached before
+    truncated: bool,
 }
 
 const HORIZON: usize = 400;
 
 /// Run one execution following `prefix` (indices into the choice lists), then default choices.
-fn execute<S: Scenario>(sc: &S, prefix: &[usize], expect: Option<u64>) -> Result<Exec<S>, Failure> {
+fn execute<S: Scenario>(sc: &S, prefix: &[usize], expect: Option<u64>, seen: Option<&dashmap::DashMap<u64, u32>>) -> Result<Exec<S>, Failure> {
     let n = sc.n_tasks();
     let (mut run, gates) = Run::new(n);
     let (ctx, futs) = sc.build(gates);
@@ -356,6 +364,7 @@ fn execute<S: Scenario>(sc: &S, prefix: &[usize], expect: Option<u64>) -> Result
         deviations: 0,
         last: None,
         point_hash: vec![],
+        truncated: false,
     };
     let mut k = 0usize;
     let mut running = 0u64;
@@ -375,6 +384,32 @@ fn execute<S: Scenario>(sc: &S, prefix: &[usize], expect: Option<u64>) -> Result
         if let Some(e) = expect {
             if !prefix.is_empty() && k == prefix.len() - 1 && running != e {
                 panic!("replay divergence: the execution observed while replaying a prefix differs from the one that produced it at point {k} (uncontrolled nondeterminism; machinery error)");
+            }
+        }
+        if let Some(seen) = seen {
+            if k >= prefix.len() {
+                // `last` is part of the key: under a preemption bound, which continuations are affordable
+                // depends on which task ran last
+                let key = crate::util::h64(&(sc.state_hash(&ex.ctx), ex.run.hist(), &parked, &ex.run.stopped, ex.last));
+                let devs = ex.deviations as u32;
+                let mut known = false;
+                match seen.entry(key) {
+                    dashmap::mapref::entry::Entry::Occupied(mut e) => {
+                        if *e.get() <= devs {
+                            known = true;
+                        } else {
+                            *e.get_mut() = devs;
+                        }
+                    }
+                    dashmap::mapref::entry::Entry::Vacant(e) => {
+                        e.insert(devs);
+                    }
+                }
+                if known {
+                    ex.truncated = true;
+                    ex.point_hash.pop();
+                    break;
+                }
             }
         }
         let choices = sc.choices(&ex.ctx, &parked, ex.last);
@@ -405,7 +440,7 @@ fn execute<S: Scenario>(sc: &S, prefix: &[usize], expect: Option<u64>) -> Result
         if c.stop {
             ex.run.stop(c.task);
         } else {
-            let h = sc.state_hash(&ex.ctx);
+            let h = sc.response_hash(&ex.ctx, c.task, &label);
             ex.run.release(c.task, c.go, h);
         }
         ex.last = Some(c.task);
@@ -432,6 +467,11 @@ pub struct ExploreCfg {
     pub bound: usize,
     pub max_schedules: u64,
     pub deadline: Option<std::time::Instant>,
+    /// State-key pruning: an execution stops (and branches no further) as soon as it reaches a
+    /// point whose key -- shared state, every task's request/answer history, where every task
+    /// is parked -- was already reached with at most as many deviations. Requires
+    /// `state_hash` / `response_hash` to be faithful. `None` = no pruning.
+    pub seen: Option<std::sync::Arc<dashmap::DashMap<u64, u32>>>,
 }
 
 /// Result of one execution in the search.
@@ -443,7 +483,7 @@ struct OneRun {
 
 fn run_one<S: Scenario>(sc: &S, cfg: &ExploreCfg, prefix: &[usize], expect: Option<u64>) -> OneRun {
     let mut stats = ExploreStats::default();
-    let ex = match execute(sc, prefix, expect) {
+    let ex = match execute(sc, prefix, expect, cfg.seen.as_deref()) {
         Ok(ex) => ex,
         Err(f) => {
             stats.schedules += 1;
@@ -476,6 +516,11 @@ fn run_one<S: Scenario>(sc: &S, cfg: &ExploreCfg, prefix: &[usize], expect: Opti
     let trace = ex.trace.clone();
     let stopped = ex.run.stopped.clone();
     let mut failure = None;
+    if ex.truncated {
+        // everything from the cut point on is covered by the execution that reached it first
+        stats.pruned += 1;
+        return OneRun { stats, alts, failure: None };
+    }
     match sc.check(ex.ctx, ex.run.results, &stopped, &trace) {
         Ok(o) => {
             stats.outcomes.insert(o.outcome_hash);
